@@ -1171,6 +1171,51 @@ def rule_greedy_complete(ctx):
         ctx.ok(site(fn, sinks[0]), "every non-ASCII path to calculate_score passes the success exit of a complete walk over needle[1..] (%d walk exit(s))" % len(succ))
 
 
+def rule_char_eq_exact(ctx):
+    """Every generic comparison `haystack_char == needle_char` (setup, score_row, the greedy scans, calculate_score, the
+    exact / substring scanners) is an instance of `H: PartialEq<N>`.  The hand-written cross-type impls must be exact
+    code point equality: the narrower side is widened, the wider side is never narrowed (a `char as u8` makes every
+    code point whose low byte is the needle byte compare equal: U+4E62 == b'b')."""
+    from cfg import decision_paths
+    facts = ctx.facts
+    widths = {"u8": 8, "i8": 8, "u16": 16, "u32": 32, "char": 32, "u64": 64, "usize": 64}
+    n = 0
+    for b in facts.bodies_of(M):
+        if b.get("impl_trait") != "std::cmp::PartialEq" or not (b["path"].endswith("::eq") or b["path"].endswith("::ne")):
+            continue
+        sig = str(b.get("sig"))
+        if "char" not in sig or "PartialEq<" not in b["path"]:
+            continue            # derived same-type impls are structural equality
+        fn = fn_of(b)
+        n += 1
+        key = "%s|exact|1" % b["path"]
+        ps = decision_paths(fn)
+        bad = None
+        for conds, res in ps:
+            if res is None:
+                continue
+            r = strip_casts(res) if res[0] != "cast" else res
+            want = "Eq" if b["path"].endswith("::eq") else "Ne"
+            if not (r[0] == "bin" and r[1] == want):
+                bad = "the result is %s, not a single %s comparison of the two characters" % (show(res)[:80], "==" if want == "Eq" else "!=")
+                break
+            for side in (r[2], r[3]):
+                for x in walk(side):
+                    if x[0] == "cast" and x[1] == "IntToInt" and widths.get(str(x[3]), 0) > widths.get(str(x[4]), 99):
+                        bad = "%s is narrowed from %s to %s before the comparison" % (show(x[2])[:40], x[3], x[4])
+                    if x[0] in ("call", "bin") and x is not r:
+                        bad = bad or "the compared value is computed (%s)" % show(x)[:60]
+            leaves = [x for x in walk(r) if x[0] == "arg"]
+            if len(set(x[1] for x in leaves)) != 2:
+                bad = bad or "the comparison does not involve both operands"
+        if bad:
+            ctx.violation(key, site(fn, 0), "%s: %s — characters that differ compare equal (or equal ones differ), so every matcher instantiated with this pair of types "
+                          "accepts / scores non-occurrences" % (b["path"], bad))
+        else:
+            ctx.ok(site(fn, 0), "%s is exact code point equality (narrower side widened)" % b["path"].split("::<impl ")[-1])
+    ctx.floor("hand-written cross-type character equalities", n, 1)
+
+
 def rule_entry_order(ctx):
     facts = ctx.facts
     for name in ("Matcher::fuzzy_matcher_impl", "Matcher::fuzzy_match_greedy_impl", "Matcher::substring_match_impl"):
@@ -1207,13 +1252,21 @@ def rule_window(ctx):
     w(ctx, only=("prefilter::<impl Matcher>::prefilter_ascii", "prefilter::<impl Matcher>::prefilter_non_ascii"))
 
 
+def rule_fold_lookup(ctx):
+    """The two normalizer routines of `char` agree only if `to_lower_case` / `is_upper_case` are exactly the fold-table lookup that `char_class_and_normalize` performs inline (and `normalize` dispatches to the right table): the lookup semantics of C16.dispatch are a premise of this property too (shared rule)."""
+    from props.c16 import rule_dispatch as r
+    r(ctx)
+
+
 def rules(ctx):
+    ctx.run_rule("C01.fold-lookup", rule_fold_lookup)
     ctx.run_rule("C01.norm-route", rule_norm_route)
     ctx.run_rule("C01.predicate-purity", rule_predicate_purity)
     ctx.run_rule("C01.norm-siblings", rule_norm_siblings)
     ctx.run_rule("C01.repr-only", rule_repr_only)
     ctx.run_rule("C01.window", rule_window)
     ctx.run_rule("C01.entry-order", rule_entry_order)
+    ctx.run_rule("C01.char-eq-exact", rule_char_eq_exact)
     ctx.run_rule("C01.greedy-complete", rule_greedy_complete)
     ctx.run_rule("C01.window-complete", rule_window_complete)
     ctx.run_rule("C01.decider-before-score", rule_decider_before_score)
